@@ -11,6 +11,7 @@ import (
 	"fmt"
 	"reflect"
 	"sort"
+	"strings"
 	"sync"
 	"testing"
 
@@ -214,6 +215,16 @@ func vGenSeq(r *kit.Rand, idx int) *vHistory {
 	h.MockPlans = []vMockPlan{{VRAMMB: 10}}
 	h.FinalUnload = true
 	n := r.Range(4, 30)
+	if r.Chance(1, 6) {
+		// spread placement over two GPUs (the all-GPUs path of pickBestFullFitByLibrary); every unload of a
+		// multi-GPU runner costs >= 250 ms of real time in waitForVRAMRecovery, so these histories are short
+		h.Profile = "c11/sequential-spread"
+		h.Spread = true
+		h.GPUs = []vGPU{{"metal", "0", 24576, 24576}, {"metal", "1", 24576, 24576}}
+		h.NumParallel = kit.Pick(r, []int{2, 4})
+		h.MockPlans = []vMockPlan{{VRAMMB: 0}}
+		n = r.Range(3, 7)
+	}
 	var script []vAction
 	for i := 1; i <= n; i++ {
 		a := vAction{Op: "req", Req: i, Model: r.Intn(h.Models), NumCtx: 8, NumGPU: -1, KeepAliveUs: -1, LoadMode: "ok"}
@@ -508,7 +519,7 @@ func TestVerifC11(t *testing.T) {
 		if err := kit.LoadReplay(cfg.Replay, &rc); err != nil {
 			t.Fatal(err)
 		}
-		replayIdx, replaySeq = rc.Index, rc.Profile == "c11/sequential"
+		replayIdx, replaySeq = rc.Index, strings.HasPrefix(rc.Profile, "c11/sequential")
 	}
 	ignore := map[int]bool{}
 	for i := 0; i < n && !(replayIdx >= 0 && replaySeq); i++ {
